@@ -351,7 +351,9 @@ var fixedChallenges = [][]byte{
 	{0x80, 0, 0, 0, 0, 0, 0, 0x01},
 }
 
-var fixedPasswords = []string{"", "Password", "password", "PASSWORD", "a", "Podalirius!", "14charsexactly", "fifteen-chars-x", "Pässwörd", "пароль", "密码", "p😀w", strings.Repeat("x", 128)}
+var fixedPasswords = []string{"", "Password", "password", "PASSWORD", "a", "Podalirius!", "14charsexactly", "fifteen-chars-x", "Pässwörd", "пароль", "密码", "p😀w", strings.Repeat("x", 128),
+	// pass phrases beyond any length a form field would take
+	strings.Repeat("y", 255), strings.Repeat("y", 256), strings.Repeat("y", 257), strings.Repeat("long pass phrase ", 60), strings.Repeat("é", 5000)}
 
 var callOrders = [][]int{{0, 1, 2}, {1, 0, 2}, {2, 1, 0}, {0, 0, 1}, {1, 1, 0}}
 
@@ -571,8 +573,10 @@ var fixedUsers = []string{"user", "User", "USER", "", "Üser", "пользова
 	// letters whose upper-case, title-case and folded forms all differ, or whose mapping changes
 	// the script block or the encoded length: digraphs (U+01C4..01CC, 01F1..01F3), Georgian,
 	// dotless/dotted i, long s, micro sign, sharp s, final sigma, ypogegrammeni
-	"ǆ", "ǅ", "Ǆ", "ǉemal", "ǈ", "ǌ", "ǳ", "ǲ", "Ǳ", "ქართული", "ıi", "İI", "ſtudent", "µ", "ß", "ς", "ᾳ", "ŉ", "ÿ", "ﬁ"}
-var fixedDomains = []string{"Domain", "DOMAIN", "domain", "", "corp.Example.com", "Домен", "δομή", "域", "𐐀𐐨", "ÉCOLE", "dom%v", "%!s(MISSING)", "d\uFFFDm"}
+	"ǆ", "ǅ", "Ǆ", "ǉemal", "ǈ", "ǌ", "ǳ", "ǲ", "Ǳ", "ქართული", "ıi", "İI", "ſtudent", "µ", "ß", "ς", "ᾳ", "ŉ", "ÿ", "ﬁ",
+	// NUL is a character of a name like any other (at the end, at the start, inside)
+	"user\x00", "\x00user", "us\x00er", "user\x00\x00"}
+var fixedDomains = []string{"Domain", "DOMAIN", "domain", "", "corp.Example.com", "Домен", "δομή", "域", "𐐀𐐨", "ÉCOLE", "dom%v", "%!s(MISSING)", "d\uFFFDm", "DOM\x00", "\x00"}
 
 func ntlmv2All() {
 	rng := r.Rand("ntlmv2")
